@@ -1,4 +1,99 @@
-import Kapture.Model.C07
+/-
+  Props/C07.lean — property theorems for C07 (containers act as plain maps whatever the edit history).
+  Property theorems ONLY.  Definitions of `abs`, `Inv`, the plain-map semantics and `interpSpec` are in Lemmas/C07.lean.
+  Everything is for ALL states / histories of ANY length over ANY timestamps and device names.
+-/
+import Kapture.Lemmas.C07
+
 namespace Kapture.C07
-theorem placeholder : True := trivial
+open Kapture Kapture.Sort
+
+variable {P : Type}
+
+/-- the invariant holds initially and is preserved by every operation, hence in every reachable state -/
+theorem inv_init : Inv (init : State P) := by sorry
+
+theorem inv_step (s : State P) (op : Op P) (h : Inv s) : Inv (step s op).1 := by sorry
+
+theorem inv_reachable (ops : List (Op P)) : Inv (run (init : State P) ops).1 := by sorry
+
+/-- refinement: each mutating operation acts on the content exactly like the plain map operation -/
+theorem setPair_refines (s : State P) (ts : Int) (dev : String) (p : P) (h : Inv s) :
+    abs (step s (Op.setPair ts dev p)).1 = (abs s).setPair ts dev p ∧ (step s (Op.setPair ts dev p)).2 = Out.ok := by sorry
+
+theorem setTs_refines (s : State P) (ts : Int) (inner : List (String × P)) (h : Inv s) :
+    abs (step s (Op.setTs ts inner)).1 = (abs s).setTs ts inner ∧ (step s (Op.setTs ts inner)).2 = Out.ok := by sorry
+
+theorem delTs_refines (s : State P) (ts : Int) (h : Inv s) :
+    if (abs s).present ts then
+      abs (step s (Op.delTs ts)).1 = (abs s).delTs ts ∧ (step s (Op.delTs ts)).2 = Out.ok
+    else step s (Op.delTs ts) = (s, Out.keyError) := by sorry
+
+theorem delPair_refines (s : State P) (ts : Int) (dev : String) (h : Inv s) :
+    if ((abs s).entry ts dev).isSome then
+      Abs.DelPair (abs s) (abs (step s (Op.delPair ts dev)).1) ts dev ∧ (step s (Op.delPair ts dev)).2 = Out.ok
+    else step s (Op.delPair ts dev) = (s, Out.keyError) := by sorry
+
+/-- queries never change the content (some refresh the cache) -/
+theorem query_keeps_content (s : State P) (op : Op P) (hq : isQuery op = true) :
+    abs (step s op).1 = abs s := by sorry
+
+/-- membership and lookup answer from the content -/
+theorem hasPair_spec (s : State P) (ts : Int) (dev : String) :
+    (step s (Op.hasPair ts dev)).2 = Out.bool ((abs s).entry ts dev).isSome := by sorry
+
+theorem hasTs_spec (s : State P) (ts : Int) :
+    (step s (Op.hasTs ts)).2 = Out.bool ((abs s).present ts) := by sorry
+
+theorem getPair_spec (s : State P) (ts : Int) (dev : String) :
+    (step s (Op.getPair ts dev)).2 = (match (abs s).entry ts dev with | some p => Out.pose p | none => Out.keyError) := by sorry
+
+/-- `key_pairs` lists exactly the stored (timestamp, device) pairs, each once -/
+theorem keyPairs_spec (s : State P) (h : Inv s) :
+    ∃ l, (step s Op.keyPairs).2 = Out.pairs l ∧ l.Nodup ∧ ∀ t d, (t, d) ∈ l ↔ ((abs s).entry t d).isSome = true := by sorry
+
+/-- the sorted-timestamp list is the strictly increasing list of the timestamps present, whatever the cache held -/
+theorem sortedList_spec (s : State P) (h : Inv s) :
+    ∃ l, (step s Op.sortedList).2 = Out.ints l ∧ SortedKeys (abs s) l := by sorry
+
+/-- a content has exactly one sorted key list -/
+theorem sortedKeys_unique (a : Abs P) (l₁ l₂ : List Int) (h₁ : SortedKeys a l₁) (h₂ : SortedKeys a l₂) : l₁ = l₂ := by sorry
+
+/-- interpolation: the stored pose when one exists, otherwise the interpolant of the two nearest poses of that
+  device when both lie within the allowed interval, otherwise nothing -/
+theorem interp_spec (s : State P) (ts : Int) (dev : String) (maxI : Int) (l : List Int) (h : Inv s)
+    (hl : SortedKeys (abs s) l) :
+    (step s (Op.interp ts dev maxI)).2 = interpSpec (abs s) l ts dev maxI := by sorry
+
+/-- ... and never fails -/
+theorem interp_total (s : State P) (ts : Int) (dev : String) (maxI : Int) (h : Inv s) :
+    (step s (Op.interp ts dev maxI)).2 ≠ Out.keyError ∧ (step s (Op.interp ts dev maxI)).2 ≠ Out.indexError := by sorry
+
+/-- the reference digit count is the usual one: d digits means 10^(d-1) ≤ n < 10^d -/
+theorem digitsRef_bounds (n : Nat) (h : 0 < n) : 10 ^ (digitsRef n - 1) ≤ n ∧ n < 10 ^ digitsRef n := by sorry
+
+/-- `num_digits` (generated from the source) counts decimal digits of |n| -/
+theorem numDigits_spec (n : Int) : Gen.NumDigits.numDigits n = (digitsRef n.natAbs : Int) := by sorry
+
+/-- timestamp length on non-negative timestamps: the common digit count or -1 (sampling 9 positions of a sorted list
+  is enough because the digit count is monotone) -/
+theorem tsLength_spec (s : State P) (l : List Int) (h : Inv s) (hl : SortedKeys (abs s) l) (hpos : ∀ t ∈ l, 0 ≤ t) :
+    (step s Op.tsLength).2 = tsLengthSpec l := by sorry
+
+/-- history independence, one step: two states with the same content answer every order-free query alike,
+  and every operation leaves them with the same content -/
+theorem same_content_same_answers (s₁ s₂ : State P) (op : Op P) (h₁ : Inv s₁) (h₂ : Inv s₂) (e : abs s₁ = abs s₂) :
+    abs (step s₁ op).1 = abs (step s₂ op).1 ∧ (isOrderFreeQuery op = true ∨ isQuery op = false → (step s₁ op).2 = (step s₂ op).2) := by sorry
+
+/-- history independence, whole histories: whatever two edit/query histories led to the same content,
+  every continuation made of order-free operations produces the same outputs -/
+theorem history_independent (h₁ h₂ cont : List (Op P))
+    (e : abs (run (init : State P) h₁).1 = abs (run (init : State P) h₂).1)
+    (hc : ∀ op ∈ cont, isOrderFreeQuery op = true ∨ isQuery op = false) :
+    (run (run (init : State P) h₁).1 cont).2 = (run (run (init : State P) h₂).1 cont).2 := by sorry
+
+-- non-vacuity: a reachable state with a warm cache, an empty timestamp and a stored pose
+example : ∃ s : State Nat, Inv s ∧ s.cache ≠ [] ∧ (abs s).present 20 = true ∧ (abs s).entry 10 "a" = some 1 :=
+  ⟨(run init [Op.setPair 10 "a" 1, Op.setTs 20 [], Op.sortedList]).1, inv_reachable _, by decide, by decide, by decide⟩
+
 end Kapture.C07
